@@ -17,7 +17,7 @@ def check(ctx: Ctx, col: Collector, tier: str) -> None:
     repo = ctx.repo
     col.spec("C15.EXCLUDE-TABLE", "without the flag exactly the files below a directory named test/tests/docs are skipped; "
              "with the flag none", "specialisation of the discovery loop over path-segment lists and the flag", floor=40)
-    col.spec("C15.GLOB", "every Python file of the package is discovered", "shape of the enumeration call", floor=1)
+    col.spec("C15.GLOB", "every Python file of the package is discovered and handed to the type checker", "shape of the enumeration call; lists passed to the build", floor=2)
     col.spec("C15.FLAG-SLICE", "the flag influences nothing but the file filter", "forward slice of is_test_run / --testrun", floor=3)
     col.spec("C15.AST-FILTER", "only trees of the filtered files are analysed (mypy follows imports into excluded directories)",
              "per-iteration path analysis of _get_mypy_asts", floor=2)
@@ -45,6 +45,25 @@ def check(ctx: Ctx, col: Collector, tier: str) -> None:
     good = (itv.func == ".rglob" and pats in ("*.py",)) or (itv.func == ".glob" and isinstance(pats, str) and pats.lstrip("./") == "**/*.py")
     (col.ok if good else col.bad)("C15.GLOB", f"{key0}::pattern", repo.loc(GETAPI, node), f"{itv.func}({pats!r})",
                                   *([] if good else [f"files are discovered with {itv.func}({pats!r}), which is not the recursive '**/*.py' enumeration"]))
+
+    # every discovered file is built: what is analysed must not depend on which other file happens to import it
+    gfi0 = repo.function(GETAPI, "get_api")
+    build_calls = [n for n in ast.walk(gfi0.node) if isinstance(n, ast.Call) and getattr(n.func, "id", "") == "_get_mypy_build"]
+    if len(build_calls) != 1:
+        raise AnalysisError("call of _get_mypy_build not found in get_api")
+    files_arg = next((k.value for k in build_calls[0].keywords if k.arg == "files"), build_calls[0].args[0] if build_calls[0].args else None)
+    built = {x.id for x in ast.walk(files_arg) if isinstance(x, ast.Name)} if files_arg is not None else set()
+    # names of lists the loop appends an __init__.py path (or its directory) to
+    init_lists = set()
+    for n in ast.walk(node):
+        if isinstance(n, ast.If) and "__init__.py" in ast.unparse(n.test):
+            for c in ast.walk(n):
+                if isinstance(c, ast.Call) and isinstance(c.func, ast.Attribute) and c.func.attr == "append" and isinstance(c.func.value, ast.Name):
+                    init_lists.add(c.func.value.id)
+    good = bool(built & init_lists)
+    (col.ok if good else col.bad)("C15.GLOB", f"{key0}::init-files-built", repo.loc(GETAPI, build_calls[0]), f"type checker is given {sorted(built)}; __init__.py files are collected in {sorted(init_lists)}",
+                                  *([] if good else ["the __init__.py files are collected as package paths only and are not handed to the type checker: a package whose code lives only in its "
+                                                     "__init__.py is analysed only if another analysed file imports it - e.g. a file of its tests directory, i.e. only with the test-run flag"]))
 
     # ------------------------------------------------------------------ EXCLUDE-TABLE
     def classify(flag: bool, parts: tuple[str, ...]) -> set[str]:
